@@ -24,6 +24,10 @@ Contract clauses (one obligation each)
                                       is exactly max_shape and the q1-quantile of the fitted gamma equals x1 (rtol 1e-9)
   known-trigamma-small-argument-cutoff     same test as trigamma-matches-reference, on 2e-5 < x <= 1e-4 only
   known-betaln-large-argument-cancellation same test as betaln-matches-reference, on max(p,q) > 1e5 only
+  known-iqr-newton-skipped-when-squared-lower-quantile-underflows   same test as iqr-fit-matches-quantile-ratio, on
+                                      inputs whose exact standardised lower quantile is < 2.3e-162 (shape <~ 0.01 with
+                                      q1 = 0.025): y1**2 underflows in the Newton step, the refinement is silently
+                                      skipped and the initial bound log(q2/q1)/log(x2/x1) is returned (shape off by ~1e-4)
 
 Tolerances.  "Near machine precision" / "the requested mean" are read as the brief's strict tolerance, relative
 1e-9 (with an absolute floor of 1e-9 where the reference crosses zero: digamma at x = 1.4616..., ln B on the
@@ -40,10 +44,10 @@ Input space (seeded; deterministic for a given seed)
   mom: mean 10^[-8,8] x shape 10^[-5,7] (variance = mean^2 / shape);   quick 33 x 25, thorough 129 x 97.
   kl : (shape 10^[-6,8] x rate 10^[-6,6]) turned into exact (mean, mean log) by mpmath, plus free pairs with
        Jensen gap log(mean) - meanlog in 10^[-9,6]; both sides of the short-cut threshold alpha = 1e4.
-  iqr: quantile pairs {(.25,.75),(.05,.95),(.025,.975),(.4,.6),(.1,.5),(.3,.9)} x true shape 10^[-2, 4.2] x scale
+  iqr: quantile pairs {(.25,.75),(.05,.95),(.025,.975),(.4,.6),(.1,.5),(.3,.9)} x true shape 10^[-2.3, 4.2] x scale
        10^{-6,0,6} x max_shape {1000,100,10,2}, inputs are exact quantiles of that gamma (so capped and uncapped
-       answers are both known) plus free ratios x2/x1 in 10^[1e-6.., 6]; x2 == x1.  Shapes below 1e-2 are excluded
-       because the lower quantile underflows double precision (0.25^(1/shape)).
+       answers are both known) plus free ratios x2/x1 - 1 in 10^[-6, 6]; x2 == x1.  Inputs whose lower quantile is not a
+       positive double (it underflows for shape <~ 0.005) are not generated.
   Not exhaustive (a lattice over a continuum).
 
 NOT covered: arguments <= 0 of the special functions (reflection branches; tsdate only passes positive shapes),
@@ -154,7 +158,7 @@ def _lattice_1d(rng, per_decade, lo=-8, hi=8):
     return np.clip(x, 10.0 ** lo, 10.0 ** hi)
 
 
-def special_functions(rep, hyp, rng, thorough, worst):
+def special_functions(rep, hyp, rng, thorough, worst, deferred):
     per = 1000 if thorough else 48
     xs = list(_lattice_1d(rng, per))
     for c in (1e-5, 8.5, 1e-4, 5.0):
@@ -174,8 +178,11 @@ def special_functions(rep, hyp, rng, thorough, worst):
         o = hyp._trigamma(x)
         e = _mixed(o, r1)
         worst.add("_trigamma", e, x)
-        clause = "known-trigamma-small-argument-cutoff" if 2e-5 < x <= 1e-4 else "trigamma-matches-reference"
-        rep.case(clause, e <= TOL, key=("psi1", x), input=inp, observed=float(o), expected={"psi1": float(r1), "tol": TOL})
+        kw = dict(key=("psi1", x), input=inp, observed=float(o), expected={"psi1": float(r1), "tol": TOL})
+        if 2e-5 < x <= 1e-4:
+            deferred.append(("known-trigamma-small-argument-cutoff", e <= TOL, kw))
+        else:
+            rep.case("trigamma-matches-reference", e <= TOL, **kw)
     n = 193 if thorough else 49
     ps = 10.0 ** np.linspace(-8, 8, n) * np.exp(rng.uniform(-0.4, 0.4, n) * math.log(10) * 16 / (n - 1))
     qs = 10.0 ** np.linspace(-8, 8, n) * np.exp(rng.uniform(-0.4, 0.4, n) * math.log(10) * 16 / (n - 1))
@@ -189,9 +196,11 @@ def special_functions(rep, hyp, rng, thorough, worst):
             e = _mixed(o, r)
             big = max(p, q) > 1e5
             worst.add("_betaln(max arg > 1e5)" if big else "_betaln(max arg <= 1e5)", e, (p, q))
-            clause = "known-betaln-large-argument-cancellation" if big else "betaln-matches-reference"
-            rep.case(clause, e <= TOL, key=("betaln", p, q), input={"p": p, "q": q}, observed=float(o),
-                     expected={"lnB": float(r), "tol": TOL})
+            kw = dict(key=("betaln", p, q), input={"p": p, "q": q}, observed=float(o), expected={"lnB": float(r), "tol": TOL})
+            if big:
+                deferred.append(("known-betaln-large-argument-cancellation", e <= TOL, kw))
+            else:
+                rep.case("betaln-matches-reference", e <= TOL, **kw)
 
 
 # =========================================================================================== gamma fits
@@ -303,7 +312,7 @@ def fit_kl(rep, approx, rng, thorough, worst):
     return counters["failed"]
 
 
-def _iqr_check(rep, approx, worst, q1, q2, x1, x2, cap, tag, qcache):
+def _iqr_check(rep, approx, worst, q1, q2, x1, x2, cap, tag, qcache, deferred, y1_exact=None):
     """Classify by the exact ratio function R(a) = Q(a,q2)/Q(a,q1) (decreasing in a): the matching shape exceeds
     the cap iff x2/x1 < R(cap)."""
     E = approx.KLMinimizationFailedError
@@ -342,24 +351,31 @@ def _iqr_check(rep, approx, worst, q1, q2, x1, x2, cap, tag, qcache):
     z1, z2 = gamma_quantile(sh, q1), gamma_quantile(sh, q2)
     e_ratio = _relerr(z2 / z1, rho)
     e_low = _relerr(z1 / ra, mpf(x1))
-    worst.add("iqr quantile ratio", e_ratio, (q1, q2, x1, x2, cap))
+    # isolated condition (on the input): the exact standardised lower quantile is so small that its square
+    # underflows double precision (< sqrt(4.9e-324) = 2.2e-162)
+    tiny = y1_exact is not None and y1_exact < mpf("2.3e-162")
+    worst.add("iqr quantile ratio" + (" (lower quantile^2 underflows)" if tiny else ""), e_ratio, (q1, q2, x1, x2, cap))
     worst.add("iqr lower quantile", e_low, (q1, q2, x1, x2, cap))
-    rep.case("iqr-fit-matches-quantile-ratio", (not capped or not must_fit) and sh <= cap and e_ratio <= TOL and e_low <= TOL,
-             key=key, input=inp,
-             observed={"alpha": out[0], "beta": out[1], "ratio_relerr": e_ratio, "lower_quantile_relerr": e_low},
-             expected={"ratio": float(rho), "q1_quantile": x1, "shape_at_most": cap, "rtol": TOL})
+    ok = (not capped or not must_fit) and sh <= cap and e_ratio <= TOL and e_low <= TOL
+    kw = dict(key=key, input=inp,
+              observed={"alpha": out[0], "beta": out[1], "ratio_relerr": e_ratio, "lower_quantile_relerr": e_low},
+              expected={"ratio": float(rho), "q1_quantile": x1, "shape_at_most": cap, "rtol": TOL})
+    if tiny:
+        deferred.append(("known-iqr-newton-skipped-when-squared-lower-quantile-underflows", ok, kw))
+    else:
+        rep.case("iqr-fit-matches-quantile-ratio", ok, **kw)
 
 
-def fit_iqr(rep, approx, rng, thorough, worst):
+def fit_iqr(rep, approx, rng, thorough, worst, deferred):
     E = approx.KLMinimizationFailedError
     qpairs = [(0.25, 0.75), (0.05, 0.95), (0.025, 0.975), (0.4, 0.6), (0.1, 0.5), (0.3, 0.9)]
     caps = [1000.0, 100.0, 10.0, 2.0]
-    nsh = 53 if thorough else 20
+    nsh = 105 if thorough else 20
     qcache = {}
     if not thorough:
         qpairs = qpairs[:4]
     for qi, (q1, q2) in enumerate(qpairs):
-        for k, ls in enumerate(np.linspace(-2, 4.2 if thorough else 3.7, nsh)):
+        for k, ls in enumerate(np.linspace(-2.3, 4.2 if thorough else 3.7, nsh)):
             al = float(10.0 ** (ls + rng.uniform(-0.05, 0.05)))
             y1, y2 = gamma_quantile(al, q1), gamma_quantile(al, q2)
             scale = [1e-6, 1.0, 1e6][(k + qi) % 3]
@@ -367,16 +383,17 @@ def fit_iqr(rep, approx, rng, thorough, worst):
             if not (x1 > 0 and x2 > x1):
                 continue
             for cap in (caps if thorough else [caps[(k + qi) % 4], 1000.0]):
-                _iqr_check(rep, approx, worst, q1, q2, x1, x2, cap, "quantiles of gamma(%.6g, %g)" % (al, scale), qcache)
+                _iqr_check(rep, approx, worst, q1, q2, x1, x2, cap, "quantiles of gamma(%.6g, %g)" % (al, scale), qcache,
+                           deferred, y1_exact=y1)
         # free ratios
-        for lr in np.linspace(-6, 6, 25 if thorough else 7):
+        for lr in np.linspace(-6, 6, 61 if thorough else 7):
             x1 = float(10.0 ** rng.uniform(-6, 6))
             x2 = float(x1 * (1 + 10.0 ** (lr + rng.uniform(-0.3, 0.3))))
             if x2 > x1:
-                _iqr_check(rep, approx, worst, q1, q2, x1, x2, caps[int(rng.integers(4))], "free ratio", qcache)
+                _iqr_check(rep, approx, worst, q1, q2, x1, x2, caps[int(rng.integers(4))], "free ratio", qcache, deferred)
         # degenerate interval: x2 == x1 -> capped
         x1 = float(10.0 ** rng.uniform(-6, 6))
-        _iqr_check(rep, approx, worst, q1, q2, x1, x1, 1000.0, "x2 == x1", qcache)
+        _iqr_check(rep, approx, worst, q1, q2, x1, x1, 1000.0, "x2 == x1", qcache, deferred)
     bad = [(0.75, 0.25, 1.0, 2.0, 1000.0), (0.25, 0.75, 2.0, 1.0, 1000.0), (0.5, 0.5, 1.0, 2.0, 1000.0)]
     for args in bad:
         st, out = _fit(approx.approximate_gamma_iqr, E, *args)
@@ -393,17 +410,33 @@ def run(req, rep):
     rep.space = ("_digamma/_trigamma on a jittered log lattice over [1e-8,1e8] incl. both neighbours of every series cut-off; "
                  "_betaln on a log grid over [1e-8,1e8]^2; approximate_gamma_mom on mean 10^[-8,8] x shape 10^[-5,7]; "
                  "approximate_gamma_kl on exact (mean, mean log) of gamma(shape 10^[-6,8], rate 10^[-6,6]) and free Jensen gaps "
-                 "10^[-9,6]; approximate_gamma_iqr on exact quantiles of gamma(shape 10^[-2,4.2]) x 6 quantile pairs x 4 caps x 3 "
+                 "10^[-9,6]; approximate_gamma_iqr on exact quantiles of gamma(shape 10^[-2.3,4.2]) x 6 quantile pairs x 4 caps x 3 "
                  "scales, free ratios and x2 == x1; invalid inputs; oracle mpmath at 40 digits")
-    rep.bound = ("thorough: 16001 + 61 points (psi), 193x193 (betaln), 129x97 (mom), 235x13 + 363 (kl), 6x(53x4+26) (iqr)" if thorough
+    rep.bound = ("thorough: 16001 + 61 points (psi), 193x193 (betaln), 129x97 (mom), 235x13 + 363 (kl), 6x(105x4+62) (iqr)" if thorough
                  else "quick: 769 + 61 points (psi), 49x49 (betaln), 33x25 (mom), 53x7 + 93 (kl), 4x(20x2+8) (iqr)")
     rep.exhaustive = False
     worst = Worst()
     warnings.simplefilter("ignore", RuntimeWarning)  # numpy warnings of the plain-Python kernels on the invalid inputs
-    special_functions(rep, hypergeo, rng, thorough, worst)
-    f1 = fit_mom(rep, approx, rng, thorough, worst)
-    f2 = fit_kl(rep, approx, rng, thorough, worst)
-    fit_iqr(rep, approx, rng, thorough, worst)
+    parts = (req.get("params") or {}).get("parts") or ["special", "mom", "kl", "iqr"]
+    deferred = []  # known-* cases are reported last so that their failures never crowd a new failure out of the list
+    f1 = f2 = 0
+    if "special" in parts:
+        special_functions(rep, hypergeo, rng, thorough, worst, deferred)
+    if "mom" in parts:
+        f1 = fit_mom(rep, approx, rng, thorough, worst)
+    if "kl" in parts:
+        f2 = fit_kl(rep, approx, rng, thorough, worst)
+    if "iqr" in parts:
+        fit_iqr(rep, approx, rng, thorough, worst, deferred)
+    # a few failing examples of every known-* clause first (the failure list of the report is capped), then the rest
+    lead, seen = [], {}
+    for item in deferred:
+        if not item[1] and seen.get(item[0], 0) < 5:
+            seen[item[0]] = seen.get(item[0], 0) + 1
+            lead.append(item)
+    lead_ids = {id(item) for item in lead}
+    for clause, ok, kw in lead + [item for item in deferred if id(item) not in lead_ids]:
+        rep.case(clause, ok, **kw)
     rep.notes.append(f"valid inputs on which a fit reported failure (allowed by the statement): mom={f1}, kl={f2}")
     rep.notes.append(worst.notes())
     # observed behaviour outside the quantifier (not a clause): non-finite moments
